@@ -12,7 +12,10 @@ RULE = ("documents generated from segments with unique and with duplicated field
         "model and implementation; traces = complete histories replayed in tree mode; non-trivial = states other than "
         "the initial document.  Route units: operations whose keys are field-name tokens / (name, 0) / negative indices / other "
         "spellings, sort_fields(key=...), replacement and deletion through the other public entry points, paragraphs built by "
-        "from_dict / from_kvpairs; origin units: the file object obtained from another kind of input")
+        "from_dict / from_kvpairs; origin units: the file object obtained from another kind of input; deep units: all "
+        "histories over a 7-operation alphabet to depth 5; ladder units: generated documents with 1..40, 63..1001 (thorough: "
+        "5000) fields / occurrences / paragraphs / continuation lines / comment lines / blank lines and values of 997..65537 "
+        "(thorough: 262145) characters, one operation each")
 BUDGET = {"quick": 240, "thorough": 3000}
 NL = "any"
 
@@ -29,6 +32,25 @@ def bounds(tier):
                       "reading the paragraphs and of dumping is compared with the model"
                       % (len(route_docs2(0)), sorted(k for k in _doc.SORT_KEYS if k != "default"),
                          ", ".join(_doc.SET_HOWS[1:]), ", ".join(h for h in _doc.DEL_HOWS[1:] if h != "popitem")),
+            "deep": "deep-narrow histories (signatures deep/<document>/...): every history of exactly the operations %s on %s, "
+                    "to depth %s, every step judged by the model, the re-parse of a dump seen before in the unit re-used"
+                    % ("sort, add Zz, add Zy, delete first, delete last, first->last, last->first"
+                       + ("" if tier == "quick" else " (on 'unique' also: refused delete, add Aa, add Dd, delete middle, first after last, append paragraph)"),
+                       ", ".join(n for n, _d in deep_docs(0)),
+                       ", ".join("%s: %d" % (n, deep_plan(n, tier)[0]) for n, _d in deep_docs(0))),
+            "count_ladders": "one generated document per count n (signatures ladder/<kind>/...) for the kinds %s (see "
+                             "_doc.ladder_spec), n in 1..40, %s%s; both terminations of the last line for n <= %d, alternating "
+                             "above; depth 1 with the operations addressing first / middle / last element (n <= 12: %d-%d "
+                             "operations, n <= 40: a reduced set, above: one operation of each kind - sort, move, delete, "
+                             "add, bulk move / replace / delete of a repeated name, insert in the middle, append); "
+                             "dups-mixed stops at 257 in the quick tier (1000, 1001 thorough)"
+                             % (", ".join(LADDER_KINDS), _doc.LADDER_NS["mid"],
+                                " and 1000, 1001 (999, 1025, 2500, 2501, 5000: thorough tier only - a case with 1000 paragraphs "
+                                "takes 0.2 s)" if tier == "quick" else ", %s and %s (5000 only for lines, comments, gap, trailing: 2 s per case otherwise)" % (_doc.LADDER_NS["big"], _doc.LADDER_NS["huge"]),
+                                12 if tier == "quick" else 40, 14, 40),
+            "size_ladders": "a field whose value is (or whose second line is) one line of L characters, L in %s, content %s with "
+                            "the special characters just before / at / across every multiple of 4096 (signatures size/<content>/...), "
+                            "moved, deleted, sorted, with paragraphs inserted around it" % (size_ls(tier), ", ".join(SIZE_CONTENTS)),
             "origins": "the file object obtained from %s instead of a list of str lines: the small alphabet at depth 1 "
                        "(depth 2 in the thorough tier) on every document ('built': the full alphabet at depth 1 and the small one at depth 2 - thorough: "
                        "the full one at depth 2 - on the documents that construction can produce)" % ", ".join(_doc.ORIGINS[1:])}
@@ -46,7 +68,11 @@ def assumptions():
             "routes: a paragraph taken out of another parsed file cannot be inserted (refused by design: it already has a "
             "parent) and is not enumerated",
             "origins: 'built' starts from paragraphs made with from_dict() appended to new_empty_file(); it is used for the "
-            "documents whose text is exactly what that construction dumps"]
+            "documents whose text is exactly what that construction dumps",
+            "deep / ladder families: the format-preserving elements offer no copy operation (copy / deepcopy are not part of "
+            "their public surface), so histories alternate between operations on one object only; the ladders stop at 5000 "
+            "elements and 262145 characters; in the deep families the re-parse of a dump text is evaluated once per unit and "
+            "text (a parse is a function of its text; the other families re-parse every time)"]
 
 
 def docs(seed):
@@ -249,10 +275,15 @@ def units(tier, seed):
     out += [{"routes2": d, "i": 4000 + i, "first": first} for i, d in enumerate(route_docs2(seed))
             for first in ("route", "default")]
     out += [{"origin": o, "docs": docs(seed), "i": 5000 + n} for n, o in enumerate(_doc.ORIGINS[1:])]
+    out += scale_units(tier, seed)
     return out
 
 
 def unit_cost(u, tier):
+    if "deep" in u:
+        return 400
+    if "ladders" in u:
+        return 30 + sum(d["n"] for d in u["ladders"]) // 20
     if "origin" in u:
         return 60
     n = sum(len(it[1]) for it in u.get("doc", u.get("routes", u.get("routes2"))) if it[0] == "par") ** 3
@@ -261,6 +292,8 @@ def unit_cost(u, tier):
 
 def run_unit(u, tier, seed):
     part = core.Part()
+    if "deep" in u or "ladders" in u:
+        return run_scale(part, u, tier, seed)
     if "routes" in u:
         base = {"doc": u["routes"], "route": {"wide": True}}
         _doc.explore(part, u["routes"], ops_routes, 1, 0, NL, base)
@@ -330,5 +363,190 @@ def replay(case):
                 if i < len(op) and isinstance(op[i], list):
                     op[i] = tuple(op[i])
         hist.append(tuple(op))
-    _d, bad = _doc.run_history(case["doc"], hist, NL, case.get("route"))
+    _d, bad = _doc.run_history(_doc.case_spec(case), hist, NL, case.get("route"))
     return bad
+
+
+# ---------------------------------------------------------------- beyond the small scope
+
+DEEP_SLICES = 8
+
+
+def deep_docs(seed):
+    """six fields in an order that is not the sorted one (one with a comment, one with a continuation line), with and
+    without the final newline; a repeated name three times among others"""
+    v = core.rep(seed, ["1", "q", "1.0", "\u00e9"])
+    F = lambda n, val, c="": (n, c, "%s: %s\n" % (n, val))
+    d1 = [("par", [F("M", v), F("C", "2", "#cm\n"), F("X", "3"), ("E", "", "E: 4\n more\n"), F("R", "5"), F("G", "6")])]
+    d2 = [("par", [F("A", v), F("B", "2"), F("A", "3"), F("C", "4"), F("A", "5"), F("B", "6")])]
+    return [("unique", d1), ("unique-open", _doc.open_tail(d1)), ("repeated", d2)]
+
+
+def _poskey(par, idx):
+    """the key that denotes exactly the field at position idx"""
+    o = _doc.occ(par, par[idx].name)
+    return par[idx].name if len(o) == 1 else (par[idx].name, o.index(idx))
+
+
+def ops_deep(doc, wide=False):
+    """the deep-narrow alphabet: sort; add a name that sorts last / one that sorts directly before that one (again: replace it);
+    delete the first / the last field; move the first field last / the last one first.
+    wide adds: a refused deletion, a name that sorts first, one that sorts in the middle, delete the middle field, append a paragraph, first field after the last"""
+    par = _doc.pars(doc)[0]
+    n = len(par)
+    ops = [("sort", 0), ("set", 0, "Zz", "z%d" % n), ("set", 0, "Zy", "y%d" % n)]
+    if par:
+        first, last = _poskey(par, 0), _poskey(par, n - 1)
+        ops += [("del", 0, first), ("del", 0, last), ("last", 0, first), ("first", 0, last)]
+    if wide:
+        ops.append(("del", 0, "Zz-absent"))
+        ops.append(("set", 0, "Aa", "a%d" % n))
+        ops.append(("set", 0, "Dd", "d%d" % n))
+        if n > 2:
+            ops.append(("del", 0, _poskey(par, n // 2)))
+            ops.append(("after", 0, _poskey(par, 0), _poskey(par, n - 1)))
+        ops.append(("append", NEWPARS[0]))
+    out = []
+    for op in ops:
+        if op not in out:
+            out.append(op)
+    return out
+
+
+def ops_deep_wide(doc):
+    return ops_deep(doc, wide=True)
+
+
+def ops_ladder(doc, reduced=False, minimal=False):
+    """single structural operations that address the first, the middle and the last element of whatever there are many
+    of (reduced: fewer of them; minimal: one of each kind)"""
+    ops = []
+    ps = _doc.pars(doc)
+    reduced = reduced or minimal
+    pis = sorted({0, len(ps) - 1}) if minimal else sorted({0, len(ps) // 2, len(ps) - 1})
+    for pi in pis:
+        par = ps[pi]
+        n = len(par)
+        ops.append(("sort", pi))
+        if not n:
+            continue
+        f, m, l = _poskey(par, 0), _poskey(par, n // 2), _poskey(par, n - 1)
+        ops += [("first", pi, l), ("del", pi, m), ("set", pi, "N", "n")]
+        if not minimal:
+            ops.append(("last", pi, f))
+        if not reduced:
+            ops += [("before", pi, l, f), ("after", pi, f, l), ("first", pi, m), ("after", pi, m, l), ("set", pi, m, "z"),
+                    ("del", pi, l), ("set", pi, l, "z\n zz")]
+        names = []
+        for fld in par:
+            if fld.name.lower() not in [x.lower() for x in names]:
+                names.append(fld.name)
+        for name in names:
+            c = len(_doc.occ(par, name))
+            if c < 2:
+                continue
+            other = [x for x in names if x != name]
+            ops += [("first", pi, name), ("set", pi, name, "z"), ("del", pi, (name, c // 2)), ("del", pi, name)]
+            if not minimal:
+                ops += [("last", pi, name), ("last", pi, (name, 0))]
+            if not reduced:
+                ops += [("first", pi, (name, c - 1)), ("set", pi, (name, c - 1), "z"), ("del", pi, name),
+                        ("before", pi, (name, c - 1), (name, 0)), ("set", pi, (name, c // 2), "z")]
+                if other:
+                    ops += [("after", pi, name, other[-1]), ("before", pi, other[0], name), ("after", pi, other[0], name)]
+    for i in ([(len(ps) + 1) // 2] if minimal else sorted({0, len(ps) // 2, len(ps)})):
+        ops.append(("insert", i, NEWPARS[0]))
+    ops.append(("append", NEWPARS[1]))
+    out = []
+    for op in ops:
+        if op not in out:
+            out.append(op)
+    return out
+
+
+def ops_ladder_reduced(doc):
+    return ops_ladder(doc, reduced=True)
+
+
+def ops_ladder_minimal(doc):
+    return ops_ladder(doc, minimal=True)
+
+
+LADDER_KINDS = ("fields", "dups", "dups-mixed", "paragraphs", "lines", "comments", "gap", "gap-comments", "trailing")
+SIZE_CONTENTS = ("plain", "blank", "colon", "multibyte", "hash", "tab")
+
+
+def ladder_ns(kind, tier):
+    ns = _doc.LADDER_NS["small"] + _doc.LADDER_NS["mid"]
+    if kind == "dups-mixed":
+        return ns + ([1000, 1001] if tier != "quick" else [])
+    if tier == "quick":
+        return ns + [1000, 1001]
+    # (a case with 5000 fields / occurrences / paragraphs / free comment lines takes 2 s: not run)
+    return ns + _doc.LADDER_NS["big"] + [n for n in _doc.LADDER_NS["huge"]
+                                         if n < 5000 or kind not in ("fields", "dups", "paragraphs", "gap-comments")]
+
+
+def size_ls(tier):
+    return [L for L in _doc.SIZE_LS if tier != "quick" or L <= 65537]
+
+
+def ladder_descs(tier):
+    out = []
+    for kind in LADDER_KINDS:
+        for n in ladder_ns(kind, tier):
+            tails = ("closed", "open") if n <= 12 or (tier != "quick" and n <= 40) else (("open",) if n % 2 else ("closed",))
+            for tail in tails:
+                if kind == "trailing" and tail == "open":
+                    continue
+                d = {"kind": kind, "n": n, "tail": tail}
+                out.append(d)
+                if kind == "lines" and n <= 40:
+                    out.append(dict(d, pos="last"))
+    for L in size_ls(tier):
+        for ci, content in enumerate(SIZE_CONTENTS):
+            out.append({"kind": "size", "n": L, "content": content, "tail": "open" if (ci + L) % 2 else "closed",
+                        "pos": "last" if ci % 3 == 2 else "mid", "multi": ci % 2 == 1})
+    return out
+
+
+def scale_units(tier, seed):
+    out = []
+    for name, d in deep_docs(seed):
+        for k in range(DEEP_SLICES):
+            out.append({"deep": name, "doc": d, "slice": k, "i": 7000 + len(out)})
+    descs = ladder_descs(tier)
+    small = [d for d in descs if d["n"] <= 40 and d["kind"] != "size"]
+    mid = [d for d in descs if 40 < d["n"] <= 257 and d["kind"] != "size"]
+    rest = [d for d in descs if d["n"] > 257 or d["kind"] == "size"]
+    for k in range(8):
+        out.append({"ladders": small[k::8], "i": 8000 + k})
+    for k in range(8):
+        out.append({"ladders": mid[k::8], "i": 8010 + k})
+    for k, d in enumerate(rest):
+        out.append({"ladders": [d], "i": 8100 + k})
+    return out
+
+
+def deep_plan(name, tier):
+    """(depth, alphabet) of a deep document"""
+    if name == "unique":
+        return (4, ops_deep) if tier == "quick" else (4, ops_deep_wide)
+    return (5 if tier == "quick" else 6), ops_deep
+
+
+def run_scale(part, u, tier, seed):
+    if "deep" in u:
+        route = {"family": "deep/" + u["deep"], "reparse-memo": True}
+        base = {"doc": u["doc"], "route": route}
+        depth, fn = deep_plan(u["deep"], tier)
+        _doc.explore(part, u["doc"], fn, depth, 0, NL, base, first_slice=(u["slice"], DEEP_SLICES))
+        return part
+    for d in u["ladders"]:
+        fam = ("size/%s" % d["content"]) if d["kind"] == "size" else "ladder/" + d["kind"]
+        base = {"ladder": d, "route": {"family": fam}}
+        fn = ops_ladder if d["n"] <= 12 else ops_ladder_reduced if d["n"] <= 40 and d["kind"] != "size" else ops_ladder_minimal
+        _doc.explore(part, _doc.ladder_spec(d), fn, 1, 0, NL, base)
+        part.extra["ladder-documents"] += 1
+    part.sample(dict(base, history=[("sort", 0)]))
+    return part
